@@ -44,7 +44,7 @@ type c10Triple struct {
 type c10Run struct {
 	T       c10Triple
 	Kind    string // incremental | fullsync
-	Variant string // stamp | drop | dup | create | identity | idcopy | append (grows the input array in place)
+	Variant string // stamp | drop | dup | create | identity | idcopy | append (grows the input array in place) | flipback | draft (c10_flip.go)
 	Sink    string // ds | http
 }
 
@@ -94,6 +94,14 @@ func c10RunsOf(t c10Triple) []c10Run {
 	for _, k := range []string{"incremental", "fullsync"} {
 		for _, v := range vars {
 			rs = append(rs, c10Run{T: t, Kind: k, Variant: v, Sink: "ds"})
+		}
+	}
+	// histories with repeated ids (see c10_flip.go): a source entity changed and changed back between two runs,
+	// and a transform that emits every entity twice (draft, then the entity itself), run twice
+	for _, k := range []string{"incremental", "fullsync"} {
+		rs = append(rs, c10Run{T: t, Kind: k, Variant: "flipback", Sink: "ds"})
+		if !t.Sampled || (t.N+t.P)%2 == 0 {
+			rs = append(rs, c10Run{T: t, Kind: k, Variant: "draft", Sink: "ds"})
 		}
 	}
 	if (t.N+2*t.B+3*t.P)%4 == 0 {
@@ -166,9 +174,12 @@ func c10Code(variant, tag string) string {
 	case "create":
 		body = `e["Properties"][pfx+":stamp"] = u; out.push(e);
       var c = NewEntity(); SetId(c, GetId(e) + "-c"); c["Properties"][pfx+":stamp"] = u; c["Properties"][pfx+":of"] = k; out.push(c);`
-	case "identity":
+	case "identity", "flipback":
 		body = ``
 		ret = "return entities;"
+	case "draft":
+		// every entity twice in one result: a draft copy (extra property) first, then the entity itself
+		body = `var d = NewEntityFrom(e, false, true, true); d["Properties"][pfx+":draft"] = 1; out.push(d); out.push(e);`
 	case "idcopy":
 		body = `out.push(NewEntityFrom(e, false, true, true));`
 	case "append":
@@ -455,6 +466,10 @@ func (st *c10State) runOne(caseID string, pos int, r c10Run, what map[string]any
 			return class + "/incr-uneven-parallel-batch"
 		}
 		return class
+	}
+	if r.Variant == "flipback" || r.Variant == "draft" {
+		st.runFlip(caseID, pos, r, viol)
+		return
 	}
 	src, err := st.ensureSource(r.T.N)
 	if err != nil {
